@@ -104,6 +104,6 @@ contract(CR + "dereference_var", props=["C10"],
 # ---- type of a sequence: a collection of its element type (recursive through nested sequences) -------------------
 contract(CR + "cpp_sequence.cpp_type", props=["C10"],
          params=dict(self=RefOf(CR + "cpp_sequence")), result=TERM,
+         requires=[("cached_type_is_collection", "field(self, '_type') == None or isinst(field(self, '_type'), '" + CT + "collection')")],
          modifies=["_type@" + CR + "cpp_sequence", "alloc"], may_raise=["Exception"], strict=False,
-         ensures=[("collection", "result != None and live(result) and isinst(result, '" + CT + "collection')"),
-                  ("vector_of", "startswith(field(result, '_type', '" + CT + "terminal'), 'std::vector<')")])
+         ensures=[("collection", "result != None and live(result) and isinst(result, '" + CT + "collection')")])
